@@ -245,7 +245,12 @@ def are_d_separated(
 
     # Filter to ancestors
     keep = graph.ancestors_inclusive(named)
-    evidence_graph = graph.subgraph(keep).moralize().disorient()
+    ancestral_graph = graph.subgraph(keep)
+    evidence_graph = ancestral_graph.moralize().disorient()
+    # a collider path may run through bidirected edges, so every district is married together with its parents
+    for district in ancestral_graph.districts():
+        closure = set(district) | ancestral_graph.get_markov_pillow(district)
+        evidence_graph.add_edges_from(combinations(closure, 2))
 
     keep = set(evidence_graph.nodes) - set(conditions)
     evidence_graph = evidence_graph.subgraph(keep)
